@@ -389,3 +389,96 @@ as_path_harness!(c05_attr_decode_as_path_len12, as_path_decode_check, 12, 2, fal
 as_path_harness!(c05_attr_decode_as4_path_len6, as_path_decode_check, 6, 17, false);
 as_path_harness!(c05_attr_decode_as4_path_len7, as_path_odd_length_check, 7, 17, false);
 as_path_harness!(c05_attr_decode_as4_path_len12, as_path_decode_check, 12, 17, false);
+
+// ------------------------------------------------------------------------------------------ C04: leaf round trip, IPv4 / IPv6 unicast entries
+
+/// One IPv4 / IPv6 unicast UPDATE entry (path identifier iff ADD-PATH, then length and prefix octets) written the way
+/// do_encode / mp_reach_encode write it and read back with the peer's decoder: the same (prefix, path-id) comes out, every
+/// byte written is consumed, and Nlri::encode returns the number of bytes it wrote.  Over every value "obtained by
+/// decoding" (octets behind the prefix length are zero — what Ipv4Net::decode / Ipv6Net::decode produce): all addresses,
+/// all prefix lengths, all path identifiers.  COMPLETE (the loops are bounded by the address width; unwinding assertions on).
+#[kani::proof]
+#[kani::unwind(6)]
+fn c04_ipv4_entry_round_trip() {
+    let a: [u8; 4] = kani::any();
+    let mask: u8 = kani::any();
+    kani::assume(mask <= 32);
+    let n = (mask as usize + 7) / 8;
+    kani::assume((n > 0 || a[0] == 0) && (n > 1 || a[1] == 0) && (n > 2 || a[2] == 0) && (n > 3 || a[3] == 0));
+    let addpath: bool = kani::any();
+    let id: u32 = kani::any();
+    kani::assume(addpath || id == 0);
+    let item = PathNlri { path_id: id, nlri: Nlri::V4(Ipv4Net { addr: Ipv4Addr::from(a), mask }) };
+    let mut buf = [0u8; 9];
+    let used = {
+        let mut dst = &mut buf[..];
+        if addpath {
+            dst.put_u32(item.path_id);
+        }
+        let l = item.nlri.encode(&mut dst).unwrap();
+        assert!(l as usize == 1 + n, "C04.leaf.nlri_encode_returns_the_bytes_written");
+        9 - dst.len()
+    };
+    assert!(used == (if addpath { 4 } else { 0 }) + 1 + n, "C04.leaf.entry_is_path_id_length_and_prefix_octets");
+    let mut r = BgpReader::<UpdateCtx>::new(&buf[..used]);
+    match PeerCodec::decode_nlri(Family::IPV4, addpath, true, &mut r, used) {
+        Ok(d) => {
+            assert!(d == item, "C04.leaf.decoding_an_encoded_entry_yields_the_same_prefix_and_path_id");
+            assert!(r.remaining_len() == 0, "C04.leaf.every_byte_written_is_consumed");
+            kani::cover!(mask == 32 && addpath, "a host route with a path identifier goes round");
+            kani::cover!(mask == 0, "the default route goes round");
+            core::mem::forget(d);
+        }
+        Err(e) => {
+            core::mem::forget(e);
+            assert!(false, "C04.leaf.an_encoded_entry_is_accepted_by_the_decoder");
+        }
+    }
+    core::mem::forget(item);
+    kani::cover!(true, "harness end reachable");
+}
+
+#[kani::proof]
+#[kani::unwind(18)]
+fn c04_ipv6_entry_round_trip() {
+    let a: [u8; 16] = kani::any();
+    let mask: u8 = kani::any();
+    kani::assume(mask <= 128);
+    let n = (mask as usize + 7) / 8;
+    let mut i = 0;
+    while i < 16 {
+        kani::assume(i < n || a[i] == 0);
+        i += 1;
+    }
+    let addpath: bool = kani::any();
+    let id: u32 = kani::any();
+    kani::assume(addpath || id == 0);
+    let item = PathNlri { path_id: id, nlri: Nlri::V6(Ipv6Net { addr: Ipv6Addr::from(a), mask }) };
+    let mut buf = [0u8; 21];
+    let used = {
+        let mut dst = &mut buf[..];
+        if addpath {
+            dst.put_u32(item.path_id);
+        }
+        let l = item.nlri.encode(&mut dst).unwrap();
+        assert!(l as usize == 1 + n, "C04.leaf.nlri_encode_returns_the_bytes_written");
+        21 - dst.len()
+    };
+    assert!(used == (if addpath { 4 } else { 0 }) + 1 + n, "C04.leaf.entry_is_path_id_length_and_prefix_octets");
+    let mut r = BgpReader::<UpdateCtx>::new(&buf[..used]);
+    match PeerCodec::decode_nlri(Family::IPV6, addpath, true, &mut r, used) {
+        Ok(d) => {
+            assert!(d == item, "C04.leaf.decoding_an_encoded_entry_yields_the_same_prefix_and_path_id");
+            assert!(r.remaining_len() == 0, "C04.leaf.every_byte_written_is_consumed");
+            kani::cover!(mask == 128 && addpath, "a host route with a path identifier goes round");
+            kani::cover!(mask == 0, "the default route goes round");
+            core::mem::forget(d);
+        }
+        Err(e) => {
+            core::mem::forget(e);
+            assert!(false, "C04.leaf.an_encoded_entry_is_accepted_by_the_decoder");
+        }
+    }
+    core::mem::forget(item);
+    kani::cover!(true, "harness end reachable");
+}
